@@ -34,6 +34,10 @@ def run(ctx):
                     if '"op":"conv"' in ln or (not ctx.quick and '"op":"mm"' in ln):
                         g.write(ln)
             ctx.validate(TRACE_MODULE, trf, label="cxx98-conv", min_lines=600)
+    # stage X02 (notes/X02-notes.md): the matrix helper libraries - gtc/matrix_access, gtx/matrix_operation, matrix_query, matrix_major_storage,
+    # matrix_cross_product, matrix_factorisation, the integer matrix types, ext/matrix_common - specified in GlmX02.tla
+    from props import x02
+    x02.run(ctx)
     ctx.rule("float, double, int, uint (+ int16, uint8 thorough): all 27 matrix products on every pair of basis matrices E_ij x E_kl (every index "
              "path of every hand-expanded product), dense distinct-prime matrices, exact dyadic fractions and random floats; 9 mat*vec and vec*mat "
              "shapes incl. aliasing forms; transpose, outerProduct, matrixCompMult, element-wise and scalar operators, compound assignments, "
